@@ -268,4 +268,107 @@ def shadowFree (ks : List FileKey) : Bool :=
 def parentsHaveInit (ks : List FileKey) : Bool :=
   ks.all (fun k => (nonemptyPrefixes k.dir).all (fun d => ks.contains (.init d)))
 
+/-! ### the names `__change_from_import` gives to imports (the module-scoped `ModelResolver`)
+
+`parse()` creates one `ModelResolver(exclude_names = all member names of the module)` per module.
+`__change_from_import` first registers every class of the module under its own name
+(`scoped_model_resolver.add([model.path], model.class_name)` for ALL models), and only then walks the
+models again and asks the resolver for a name for every foreign reference
+(`alias = scoped_model_resolver.add(full_path, import_).name`). A name differing from the class name
+becomes `import … as alias`. That the first pass is complete before the second starts is what keeps an
+import from taking the name of a class that is defined later in the same module. -/
+
+/-- one `Reference` of the scoped resolver: joined path (the dict key), `original_name`, `name` -/
+structure ScopeEnt where
+  key : List Char
+  orig : List Char
+  name : List Char
+  deriving DecidableEq, Repr
+
+/-- `ModelResolver.references` (insertion order) and `exclude_names` -/
+structure Scope where
+  refs : List ScopeEnt
+  excl : List (List Char)
+  deriving DecidableEq, Repr
+
+/-- `{r.name for r in self.references.values()} | self.exclude_names` -/
+def Scope.taken (s : Scope) : List (List Char) := s.refs.map (·.name) ++ s.excl
+
+/-- what `_get_unique_name(name)` tries at the `k`-th test of its loop condition: `name`, `name_1`,
+`name_2`, … (`"_".join(str(p) for p in [name, count] if p)`; no `duplicate_name_suffix`, `camel=False`) -/
+def aliasCandidate (name : List Char) : Nat → List Char
+  | 0 => name
+  | k + 1 => (if name = [] then [] else name ++ ['_']) ++ Nat.toDigits 10 (k + 1)
+
+/-- `while unique_name in reference_names: …` -/
+def firstFree (name : List Char) (tk : List (List Char)) : Nat → Nat → Option (List Char)
+  | 0, _ => none
+  | fuel + 1, k => if tk.contains (aliasCandidate name k) then firstFree name tk fuel (k + 1) else some (aliasCandidate name k)
+
+/-- `_get_unique_name(name)`; `none` = the loop did not finish within `|taken| + 1` rounds (it always
+does: the candidates are pairwise different — shown for the same candidate sequence in property C06) -/
+def Scope.uniqueName (s : Scope) (name : List Char) : Option (List Char) :=
+  firstFree name s.taken (s.taken.length + 1) 0
+
+/-- `ModelResolver.add(path, original_name)` with the defaults `class_name=False, singular_name=False,
+unique=True`: the state after the call and the `.name` of the `Reference` returned. `vn` is
+`get_valid_field_name(·, model_type=CLASS)`. -/
+def Scope.add (vn : List Char → List Char) (s : Scope) (key orig : List Char) : Scope × Option (List Char) :=
+  match s.refs.find? (fun e => e.key = key) with
+  | some r =>
+    if orig = [] ∨ orig = r.orig ∨ orig = r.name then (s, some r.name)
+    else match s.uniqueName (vn orig) with
+      | none => (s, none)
+      | some u => ({ s with refs := s.refs.map (fun e => if e.key = key then { e with orig := orig, name := u } else e) }, some u)
+  | none =>
+    match s.uniqueName (vn orig) with
+    | none => (s, none)
+    | some u => ({ s with refs := s.refs ++ [⟨key, if orig = [] then u else orig, u⟩] }, some u)
+
+/-- first loop of `__change_from_import`: every class of the module, `(join_path([model.path]), class_name)`;
+`none` = some unique-name loop ran out of fuel -/
+def preRegister (vn : List Char → List Char) : Scope → List (List Char × List Char) → Option Scope
+  | s, [] => some s
+  | s, (key, cls) :: rest =>
+    match s.add vn key cls with
+    | (s', some _) => preRegister vn s' rest
+    | (_, none) => none
+
+/-- second loop: the foreign references in the order they are met, `(join_path(full_path), import_)` →
+the names handed out -/
+def allocate (vn : List Char → List Char) : Scope → List (List Char × List Char) → Option (List (List Char))
+  | _, [] => some []
+  | s, (key, imp) :: rest =>
+    match s.add vn key imp with
+    | (s', some n) => (allocate vn s' rest).map (n :: ·)
+    | (_, none) => none
+
+/-- the names `__change_from_import` gives the imports of one module -/
+def importNames (vn : List Char → List Char) (excl : List (List Char))
+    (classes reqs : List (List Char × List Char)) : Option (List (List Char)) :=
+  match preRegister vn ⟨[], excl⟩ classes with
+  | some s => allocate vn s reqs
+  | none => none
+
+/-- serve a list of references in order, threading the resolver state -/
+def serve (vn : List Char → List Char) : Scope → List (List Char × List Char) → Option (Scope × List (List Char))
+  | s, [] => some (s, [])
+  | s, (k, imp) :: more =>
+    match s.add vn k imp with
+    | (s', some n) => (serve vn s' more).map (fun r => (r.1, n :: r.2))
+    | (_, none) => none
+
+/-- NOT what the code does — the two loops merged into one: each model's class is registered right
+before that model's own references are served (`models`: class key, class name, its references) -/
+def importNamesMerged (vn : List Char → List Char) :
+    Scope → List (List Char × List Char × List (List Char × List Char)) → Option (List (List Char))
+  | _, [] => some []
+  | s, (key, cls, reqs) :: rest =>
+    match s.add vn key cls with
+    | (_, none) => none
+    | (s1, some _) =>
+      match serve vn s1 reqs with
+      | none => none
+      | some (s2, names) => (importNamesMerged vn s2 rest).map (names ++ ·)
+
 end Dcg.Model.Modules
